@@ -68,6 +68,16 @@ pub enum Mutation {
     /// a symlink pointing to a file outside of the destination sits where the snapshot has a file
     SymlinkToOutside,
     ModeChanged,
+    /// per-chunk damage of a multi-chunk file: one byte in the middle of every chunk whose bit is
+    /// set is changed (the first five chunks are addressed); `tail` -1 = the last 10 bytes are cut
+    /// off, +1 = 16 bytes are appended; the mtime differs so that the content is compared
+    Chunks { mask: u32, tail: i8 },
+}
+
+/// chunk lengths of `data` under the chunker of the repositories used here (tiny rabin 64/64/256)
+fn chunk_lens(data: &[u8]) -> Vec<usize> {
+    let p = crate::c06::Params { fixed: false, poly: u64::from_str_radix(vkit::rep::POLY, 16).unwrap(), size: 64, min: 64, max: 256 };
+    crate::c06::ref_chunks(data, &p, &mut std::collections::HashMap::new())
 }
 
 #[derive(Clone, Debug, Serialize, Deserialize, PartialEq, Eq, Hash)]
@@ -191,6 +201,26 @@ fn apply_mutation(dest_r: &Path, rel: &str, e: &Entry, m: &Mutation) {
                 set_mode(&path, 0o600);
             }
         }
+        Mutation::Chunks { mask, tail } => {
+            if let Ent::File(d) = &e.ent {
+                let mut v = d.to_vec();
+                let mut start = 0usize;
+                for (k, l) in chunk_lens(d).into_iter().enumerate() {
+                    if k < 5 && mask >> k & 1 == 1 {
+                        v[start + l / 2] = v[start + l / 2].wrapping_add(1);
+                    }
+                    start += l;
+                }
+                match tail {
+                    -1 => v.truncate(v.len().saturating_sub(10)),
+                    1 => v.extend_from_slice(b"TRAILING GARBAGE"),
+                    _ => {}
+                }
+                remove(&path);
+                fs::write(&path, v).unwrap();
+                set_mtime(&path, mtime + 5_000_000_000);
+            }
+        }
     }
 }
 
@@ -203,6 +233,7 @@ fn applicable(e: &Entry, m: &Mutation) -> bool {
         Mutation::WrongTypeDir => !matches!(e.ent, Ent::Dir(_)),
         Mutation::WrongTypeSymlink => !matches!(e.ent, Ent::Symlink(_)),
         Mutation::SymlinkToOutside => matches!(e.ent, Ent::File(_)),
+        Mutation::Chunks { .. } => matches!(&e.ent, Ent::File(d) if chunk_lens(d).len() >= 2),
     }
 }
 
@@ -571,6 +602,9 @@ pub fn run(args: &Args, rep: &mut Report) {
             return;
         }
         rep.inc("cases");
+        if c.muts.iter().any(|(_, m)| matches!(m, Mutation::Chunks { .. })) {
+            rep.inc("chunk_pattern_cases");
+        }
         if !c.muts.is_empty() || !c.extras.is_empty() {
             _ = rep.distinct("nontrivial", &serde_json::to_string(&c).unwrap());
         }
@@ -617,6 +651,27 @@ pub fn run(args: &Args, rep: &mut Report) {
                             continue;
                         }
                         exec(Case { snap, muts: vec![(p.clone(), m.clone())], extras: extras.clone(), delete: *delete, verify_existing: *verify, sparse: *sparse, no_ownership: *noown }, rep);
+                    }
+                }
+            }
+        }
+        // per-chunk damage patterns of every multi-chunk file: every subset of its first five
+        // chunks x {same length, shorter, longer}
+        for (p, e) in &paths {
+            let Ent::File(d) = &e.ent else { continue };
+            let n = chunk_lens(d).len();
+            if n < 2 || e.meta.links > 1 {
+                continue;
+            }
+            for mask in 0..(1u32 << n.min(5)) {
+                for tail in [0i8, -1, 1] {
+                    if mask == 0 && tail == 0 {
+                        continue;
+                    }
+                    for (delete, verify) in [(false, false), (true, true)] {
+                        for sparse in [false, true] {
+                            exec(Case { snap, muts: vec![(p.clone(), Mutation::Chunks { mask, tail })], extras: vec![], delete, verify_existing: verify, sparse, no_ownership: true }, rep);
+                        }
                     }
                 }
             }
